@@ -32,11 +32,17 @@ func init() {
 		Rule: "payload kinds (none; value x each registered producer json/xml/yaml/text/html/csv/octet-stream; io.Reader; io.ReadCloser; form fields only; files only; both; several values and files per field; names with quotes, backslashes, directories) " +
 			"x file contents of every length 0..520 plus large ones, text/HTML/binary/PNG/JSON, delivered in full or in short reads, with and without a declared content type x media types x auth writers calling GetBody 0, 1 or 3 times; " +
 			"each request goes through Runtime.Submit into a capturing RoundTripper that reads and closes the body like a transport (no network; -race build). Oracle: mime/multipart, url.ParseQuery, http.DetectContentType on the first <=512 content bytes, the producers themselves. " +
+			"around the payload: methods POST/PUT/PATCH and GET/DELETE/OPTIONS/HEAD/QUERY, a Content-Type header preset by the params writer, offers [T] ['',T] [] ['',''] [T,other] ['',T,other] (Runtime.DefaultMediaType = T when nothing is offered), variant spellings of T registered by the caller (parameters, case), " +
+			"reader payloads with short reads and data+EOF, seekable upload sources handed over at offsets 0..700 of a longer file, Runtime.Debug on; the transport also records Request.ContentLength and re-reads Request.GetBody. A refuted case is re-run with each decoration taken away, so that witness and signature keep only what matters. " +
 			"non-trivial = every judged request; distinct by (payload kind, media type, value kind, #fields, file name/kind/length/chunking/declared type, GetBody count)",
 		Assumptions: []string{
 			"the expected encoding of a value is what the registered producer writes for it into a plain buffer (differential: the transport must not alter, truncate or re-encode it)",
 			"multipart parts may come in any order (fields and files are kept in maps); every value and file must appear exactly once",
 			"the type sniffed from content is http.DetectContentType of its first min(512, len) bytes (the function's documented window)",
+			"the content of an upload is what its reader has to offer from the position at which it is handed over",
+			"the media type that describes a reader payload is the one chosen for the operation, whatever Content-Type the params writer had put in the header parameters and whatever the method",
+			"which of several offered media types is chosen is not judged: the Content-Type must be one of the non-empty offered ones (the Runtime's default when none is offered) and the body must be that type's encoding",
+			"a declared Request.ContentLength binds the transport (net/http: > 0, or 0 with no body) and must equal the number of body bytes; Request.GetBody, when set, must give the bytes of the body",
 		},
 		MinNontrivial: 200,
 		Run:           run,
@@ -55,6 +61,11 @@ type FileSpec struct {
 	// Renamed: the source is runtime.NamedReader(Name, <a named source called Renamed>): the part must
 	// carry Name, the name the caller gave last
 	Renamed string `json:"renamedFrom,omitempty"`
+	// Seekable: the source also implements io.Seeker; Offset: it holds Offset other bytes in front of the
+	// content and is handed over positioned after them (a file the caller has partly read). What the
+	// reader has to offer, and so what must be sent and sniffed, is the content only.
+	Seekable bool `json:"seekable,omitempty"`
+	Offset   int  `json:"offset,omitempty"`
 }
 
 // Case is one client request.
@@ -67,6 +78,24 @@ type Case struct {
 	Fields    map[string][]string `json:"fields,omitempty"`
 	Files     []FileSpec          `json:"files,omitempty"`
 	GetBody   int                 `json:"getBody"` // -1: no auth writer
+
+	// PresetCT: the params writer also sets a Content-Type header parameter of its own.
+	PresetCT string `json:"presetContentType,omitempty"`
+	// Consumes is the shape of ClientOperation.ConsumesMediaTypes around the media type T meant to be chosen
+	// (T = Variant when set, else MediaType): "" = [T]; "empty-first" = ["", T]; "none" = nil and
+	// "all-empty" = ["", ""] (then Runtime.DefaultMediaType is set to T); "then-other" = [T, Other];
+	// "empty-then-two" = ["", T, Other].
+	Consumes string `json:"consumesShape,omitempty"`
+	Other    string `json:"otherMediaType,omitempty"`
+	// Variant: another spelling of MediaType (parameters, case) under which the caller registers
+	// MediaType's producer; it is what the operation offers.
+	Variant string `json:"mediaTypeVariant,omitempty"`
+	// BodyChunk > 0: a reader/readcloser payload delivers at most that many bytes per Read; BodyEOF: its last
+	// bytes come together with io.EOF.
+	BodyChunk int  `json:"bodyChunk,omitempty"`
+	BodyEOF   bool `json:"bodyEOF,omitempty"`
+	// Debug: Runtime.Debug is on (the request is dumped, body included, before it is sent).
+	Debug bool `json:"debug,omitempty"`
 }
 
 func content(kind string, n int) []byte {
@@ -94,28 +123,64 @@ func content(kind string, n int) []byte {
 
 type upload struct {
 	spec   FileSpec
-	data   []byte
-	pos    int
+	data   []byte // what the source has to offer from where it is handed over: what must be sent
+	all    []byte // the whole underlying "file": Offset other bytes, then data
+	pos    int    // read position in all
 	closed int32
+}
+
+func newUpload(fs FileSpec) *upload {
+	u := &upload{spec: fs, data: content(fs.Kind, fs.Len)}
+	u.all = u.data
+	if fs.Seekable && fs.Offset > 0 {
+		pre := "png" // bytes of another nature than the content, so that sniffing them gives another type
+		if fs.Kind == "png" || fs.Kind == "binary" {
+			pre = "html"
+		}
+		u.all = append(content(pre, fs.Offset), u.data...)
+		u.pos = fs.Offset
+	}
+	return u
 }
 
 func (u *upload) Name() string { return u.spec.Name }
 func (u *upload) Read(p []byte) (int, error) {
-	if u.pos >= len(u.data) {
+	if u.pos >= len(u.all) {
 		return 0, io.EOF
 	}
-	n := len(u.data) - u.pos
+	n := len(u.all) - u.pos
 	if n > len(p) {
 		n = len(p)
 	}
 	if u.spec.Chunk > 0 && n > u.spec.Chunk {
 		n = u.spec.Chunk
 	}
-	copy(p, u.data[u.pos:u.pos+n])
+	copy(p, u.all[u.pos:u.pos+n])
 	u.pos += n
 	return n, nil
 }
 func (u *upload) Close() error { atomic.AddInt32(&u.closed, 1); return nil }
+
+// seekUpload is an upload that can also seek, over the whole underlying file.
+type seekUpload struct{ *upload }
+
+func (s seekUpload) Seek(off int64, whence int) (int64, error) {
+	var base int64
+	switch whence {
+	case io.SeekStart:
+	case io.SeekCurrent:
+		base = int64(s.pos)
+	case io.SeekEnd:
+		base = int64(len(s.all))
+	default:
+		return 0, fmt.Errorf("bad whence %d", whence)
+	}
+	if base+off < 0 {
+		return 0, fmt.Errorf("negative position")
+	}
+	s.pos = int(base + off)
+	return base + off, nil
+}
 
 type typedUpload struct{ *upload }
 
@@ -125,21 +190,71 @@ type onlyReader struct{ r io.Reader }
 
 func (o onlyReader) Read(p []byte) (int, error) { return o.r.Read(p) }
 
+// chunkReader delivers data in short reads and, if asked, its last bytes together with io.EOF.
+type chunkReader struct {
+	data        []byte
+	pos, chunk  int
+	eofWithData bool
+}
+
+func (c *chunkReader) Read(p []byte) (int, error) {
+	if c.pos >= len(c.data) {
+		return 0, io.EOF
+	}
+	n := len(c.data) - c.pos
+	if n > len(p) {
+		n = len(p)
+	}
+	if c.chunk > 0 && n > c.chunk {
+		n = c.chunk
+	}
+	copy(p, c.data[c.pos:c.pos+n])
+	c.pos += n
+	if c.eofWithData && c.pos >= len(c.data) {
+		return n, io.EOF
+	}
+	return n, nil
+}
+
+type discardLogger struct{}
+
+func (discardLogger) Printf(string, ...interface{}) {}
+func (discardLogger) Debugf(string, ...interface{}) {}
+
 type capture struct {
 	header  http.Header
 	body    []byte
 	hadBody bool
 	err     error
 	method  string
+	// what a real transport goes by besides the bytes it can read
+	contentLength int64
+	lengthKnown   bool // the declared length binds the transport (it is not "unknown")
+	hasGetBody    bool
+	again         []byte // what Request.GetBody gives (used to send the body once more)
+	againErr      error
 }
 
 func (c *capture) RoundTrip(r *http.Request) (*http.Response, error) {
 	c.header = r.Header.Clone()
 	c.method = r.Method
+	c.contentLength = r.ContentLength
+	// net/http: for an outgoing request, 0 with a non-nil Body (other than NoBody) means unknown, as does -1
+	c.lengthKnown = r.ContentLength > 0 || (r.ContentLength == 0 && (r.Body == nil || r.Body == http.NoBody))
 	if r.Body != nil {
 		c.hadBody = true
 		c.body, c.err = io.ReadAll(r.Body)
 		r.Body.Close()
+	}
+	if r.GetBody != nil {
+		c.hasGetBody = true
+		rc, err := r.GetBody()
+		if err != nil {
+			c.againErr = err
+		} else {
+			c.again, c.againErr = io.ReadAll(rc)
+			rc.Close()
+		}
 	}
 	return &http.Response{StatusCode: 200, Status: "200 OK", Proto: "HTTP/1.1", ProtoMajor: 1, ProtoMinor: 1,
 		Header: http.Header{"Content-Type": {"application/json"}}, Body: io.NopCloser(strings.NewReader(`{}`)), Request: r}, nil
@@ -178,41 +293,194 @@ var producerKinds = map[string][]string{
 	"application/octet-stream": {"string", "bytes"},
 }
 
+// chosen is the media type the operation means to be chosen, as offered.
+func (c *Case) chosen() string {
+	if c.Variant != "" {
+		return c.Variant
+	}
+	return c.MediaType
+}
+
+// consumes gives the ConsumesMediaTypes list of the operation and whether the Runtime's default media type
+// has to stand in for an empty offer.
+func (c *Case) consumes() (list []string, viaDefault bool) {
+	t := c.chosen()
+	switch c.Consumes {
+	case "empty-first":
+		return []string{"", t}, false
+	case "none":
+		return nil, true
+	case "all-empty":
+		return []string{"", ""}, true
+	case "then-other":
+		return []string{t, c.Other}, false
+	case "empty-then-two":
+		return []string{"", t, c.Other}, false
+	}
+	return []string{t}, false
+}
+
+// sameMediaType: two Content-Type values that say the same thing (type compared without case, same parameters).
+func sameMediaType(a, b string) bool {
+	if a == b {
+		return true
+	}
+	ta, pa, ea := mime.ParseMediaType(a)
+	tb, pb, eb := mime.ParseMediaType(b)
+	if ea != nil || eb != nil || ta != tb || len(pa) != len(pb) {
+		return false
+	}
+	for k, v := range pa {
+		if pb[k] != v {
+			return false
+		}
+	}
+	return true
+}
+
+// labelled finds which of the offered media types the Content-Type names; base is the registered type whose
+// producer (or form encoding) then has to have made the body. The comparison is the exact one for plain
+// offers; a form type is recognised whatever parameters follow it, a variant spelling by its meaning.
+func (c *Case) labelled(ct string) (base string, first, ok bool) {
+	hasForm := len(c.Fields) > 0 || len(c.Files) > 0
+	match := func(offer string) bool {
+		if ct == offer {
+			return true
+		}
+		if hasForm {
+			t1, _, e1 := mime.ParseMediaType(ct)
+			t2, _, e2 := mime.ParseMediaType(offer)
+			return e1 == nil && e2 == nil && t1 == t2
+		}
+		return c.Variant != "" && offer == c.Variant && sameMediaType(ct, offer)
+	}
+	if match(c.chosen()) {
+		return c.MediaType, true, true
+	}
+	if (c.Consumes == "then-other" || c.Consumes == "empty-then-two") && c.Other != "" && match(c.Other) {
+		return c.Other, false, true
+	}
+	return "", false, false
+}
+
+// verdict is a refuting observation: the signature (failure kind / input feature) and what was seen.
+type verdict struct{ sig, detail string }
+
+// runCase executes and judges a case. When it is refuted, the decorations of the case (method, preset
+// Content-Type, offer shape, variant spelling, short reads, debug mode, seekable sources) that the refutation
+// does not need are taken away one by one, so that the witness is minimal and the signature names only the
+// input features that matter.
 func runCase(m *mon.M, c *Case) {
 	m.Eval(1)
+	m.NT(c.fingerprint())
+	v := evalCase(c, m.Class)
+	if v == nil {
+		if m.WantSample() {
+			m.Sample(c)
+		}
+		return
+	}
+	min := *c
+	for _, strip := range strippers {
+		try := min
+		try.Files = append([]FileSpec(nil), min.Files...)
+		if !strip(&try) {
+			continue
+		}
+		if v2 := evalCase(&try, func(string) {}); v2 != nil && v2.sig == v.sig {
+			min, v = try, v2
+		}
+	}
+	m.Violate(v.sig+min.decorations(), v.detail, &min)
+}
+
+// strippers each take one decoration away; they report whether there was anything to take.
+var strippers = []func(*Case) bool{
+	func(c *Case) bool { had := c.Debug; c.Debug = false; return had },
+	func(c *Case) bool { had := c.BodyChunk > 0 || c.BodyEOF; c.BodyChunk, c.BodyEOF = 0, false; return had },
+	func(c *Case) bool { had := c.Consumes != ""; c.Consumes, c.Other = "", ""; return had },
+	func(c *Case) bool { had := c.Variant != ""; c.Variant = ""; return had },
+	func(c *Case) bool { had := c.PresetCT != ""; c.PresetCT = ""; return had },
+	func(c *Case) bool {
+		switch c.Method {
+		case "POST", "PUT", "PATCH", "":
+			return false
+		}
+		c.Method = "POST"
+		return true
+	},
+	func(c *Case) bool {
+		had := false
+		for i := range c.Files {
+			had = had || c.Files[i].Seekable
+			c.Files[i].Seekable, c.Files[i].Offset = false, 0
+		}
+		return had
+	},
+}
+
+func evalCase(c *Case, class func(string)) *verdict {
 	cap := &capture{}
 	r := client.New("example.invalid", "/api", []string{"http"})
 	r.Transport = cap
+	// the producers as registered, kept aside for the expectation
+	producers := map[string]rt.Producer{}
+	for k, v := range r.Producers {
+		producers[k] = v
+	}
+	if c.Variant != "" {
+		r.Producers[c.Variant] = producers[c.MediaType]
+	}
+	consumes, viaDefault := c.consumes()
+	if viaDefault {
+		r.DefaultMediaType = c.chosen()
+	}
+	if c.Debug {
+		r.SetLogger(discardLogger{})
+		r.Debug = true
+	}
 	var uploads []*upload
 	var stream []byte
 	var sawBodies [][]byte
 	params := rt.ClientRequestWriterFunc(func(req rt.ClientRequest, _ strfmt.Registry) error {
+		if c.PresetCT != "" {
+			_ = req.SetHeaderParam("Content-Type", c.PresetCT)
+		}
 		switch c.Payload {
 		case "value":
 			_ = req.SetBodyParam(valueFor(c.ValueKind, c.BodyLen))
 		case "reader":
 			stream = content("json", c.BodyLen)
-			_ = req.SetBodyParam(onlyReader{bytes.NewReader(stream)})
+			if c.BodyChunk > 0 || c.BodyEOF {
+				_ = req.SetBodyParam(&chunkReader{data: append([]byte(nil), stream...), chunk: c.BodyChunk, eofWithData: c.BodyEOF})
+			} else {
+				_ = req.SetBodyParam(onlyReader{bytes.NewReader(stream)})
+			}
 		case "readcloser":
 			stream = content("binary", c.BodyLen)
-			_ = req.SetBodyParam(io.NopCloser(bytes.NewReader(stream)))
+			if c.BodyChunk > 0 || c.BodyEOF {
+				_ = req.SetBodyParam(io.NopCloser(&chunkReader{data: append([]byte(nil), stream...), chunk: c.BodyChunk, eofWithData: c.BodyEOF}))
+			} else {
+				_ = req.SetBodyParam(io.NopCloser(bytes.NewReader(stream)))
+			}
 		case "bytes.Buffer": // a caller-owned buffer: the same concrete type the request uses internally
 			stream = content("json", c.BodyLen)
 			_ = req.SetBodyParam(bytes.NewBuffer(append([]byte(nil), stream...)))
 		case "bytes.Reader":
 			stream = content("binary", c.BodyLen)
-			_ = req.SetBodyParam(bytes.NewReader(stream))
+			_ = req.SetBodyParam(bytes.NewReader(append([]byte(nil), stream...)))
 		case "strings.Reader":
 			stream = content("text", c.BodyLen)
 			_ = req.SetBodyParam(strings.NewReader(string(stream)))
 		}
 		for k, v := range c.Fields {
-			_ = req.SetFormParam(k, v...)
+			// the request gets slices of its own: the expectation is c.Fields, which it cannot reach
+			_ = req.SetFormParam(k, append([]string(nil), v...)...)
 		}
 		byField := map[string][]rt.NamedReadCloser{}
 		var order []string
 		for _, fs := range c.Files {
-			u := &upload{spec: fs, data: content(fs.Kind, fs.Len)}
+			u := newUpload(fs)
 			uploads = append(uploads, u)
 			if _, ok := byField[fs.Field]; !ok {
 				order = append(order, fs.Field)
@@ -226,6 +494,8 @@ func runCase(m *mon.M, c *Case) {
 				wrapped := rt.NamedReader(fs.Name, &inner)
 				uploads[len(uploads)-1] = &inner // the bytes are read from the inner source
 				byField[fs.Field] = append(byField[fs.Field], wrapped)
+			case fs.Seekable:
+				byField[fs.Field] = append(byField[fs.Field], seekUpload{u})
 			default:
 				byField[fs.Field] = append(byField[fs.Field], u)
 			}
@@ -245,94 +515,110 @@ func runCase(m *mon.M, c *Case) {
 			return req.SetHeaderParam("X-Signed", fmt.Sprint(c.GetBody))
 		})
 	}
-	op := &rt.ClientOperation{ID: "x", Method: c.Method, PathPattern: "/things", ConsumesMediaTypes: []string{c.MediaType}, ProducesMediaTypes: []string{"application/json"},
+	op := &rt.ClientOperation{ID: "x", Method: c.Method, PathPattern: "/things", ConsumesMediaTypes: consumes, ProducesMediaTypes: []string{"application/json"},
 		Params: params, AuthInfo: auth, Reader: rt.ClientResponseReaderFunc(func(rt.ClientResponse, rt.Consumer) (interface{}, error) { return nil, nil })}
 	var subErr error
 	pv, st := mon.Catch(func() { _, subErr = r.Submit(op) })
-	feat := c.feature()
-	m.NT(c.fingerprint())
+	feat := c.baseFeature()
 	if pv != nil {
-		m.Violate("panic/"+feat, fmt.Sprintf("%v\n%s", pv, st), c)
-		return
+		return &verdict{"panic/" + feat, fmt.Sprintf("%v\n%s", pv, st)}
 	}
 	if subErr != nil {
-		m.Violate("submit-failed/"+feat, fmt.Sprintf("Submit failed: %v ; %s", subErr, c.describe()), c)
-		return
+		return &verdict{"submit-failed/" + feat, fmt.Sprintf("Submit failed: %v ; %s", subErr, c.describe())}
 	}
 	if cap.err != nil {
-		m.Violate("body-read-error/"+feat, fmt.Sprintf("the transport could not read the body: %v ; %s", cap.err, c.describe()), c)
-		return
+		return &verdict{"body-read-error/" + feat, fmt.Sprintf("the transport could not read the body: %v ; %s", cap.err, c.describe())}
+	}
+	// what a transport goes by: a binding declared length is the number of bytes there are to send, and the
+	// means to send the body once more gives the same bytes
+	if cap.lengthKnown && cap.contentLength != int64(len(cap.body)) {
+		return &verdict{"content-length-differs/" + feat, fmt.Sprintf("Request.ContentLength %d, the body holds %d bytes ; %s", cap.contentLength, len(cap.body), c.describe())}
+	}
+	if cap.hasGetBody && (cap.againErr != nil || !bytes.Equal(cap.again, cap.body)) {
+		return &verdict{"request-getbody-differs/" + feat, fmt.Sprintf("Request.GetBody gives %d bytes %.60q (err %v), the body sent holds %d bytes %.60q ; %s", len(cap.again), cap.again, cap.againErr, len(cap.body), cap.body, c.describe())}
+	}
+	if cap.lengthKnown {
+		class("content-length/known")
+	} else {
+		class("content-length/unknown")
 	}
 	ct := cap.header.Get("Content-Type")
+	if n := len(cap.header.Values("Content-Type")); n > 1 {
+		return &verdict{"several-content-types/" + feat, fmt.Sprintf("%d Content-Type header values %q ; %s", n, cap.header.Values("Content-Type"), c.describe())}
+	}
 	// what auth saw is what is sent
 	for i, b := range sawBodies {
 		if !bytes.Equal(b, cap.body) {
-			m.Violate(fmt.Sprintf("getbody-differs-from-sent/%s", feat), fmt.Sprintf("GetBody call #%d returned %d bytes %.60q, sent %d bytes %.60q ; %s", i+1, len(b), b, len(cap.body), cap.body, c.describe()), c)
-			return
+			return &verdict{fmt.Sprintf("getbody-differs-from-sent/%s", feat), fmt.Sprintf("GetBody call #%d returned %d bytes %.60q, sent %d bytes %.60q ; %s", i+1, len(b), b, len(cap.body), cap.body, c.describe())}
 		}
 	}
 	hasForm := len(c.Fields) > 0 || len(c.Files) > 0
+	base, first, offered := c.labelled(ct)
+	noteFirst := func() {
+		if !first {
+			class("chosen/a-later-offered-type(which one: not judged)")
+		} else if c.Consumes != "" || c.Variant != "" {
+			class("chosen/first-non-empty:" + c.Consumes + ":variant=" + fmt.Sprint(c.Variant != ""))
+		}
+	}
 	switch {
-	case hasForm && (len(c.Files) > 0 || c.MediaType == "multipart/form-data"):
-		judgeMultipart(m, c, cap, ct, uploads, feat)
+	case hasForm && (len(c.Files) > 0 || (offered && base == "multipart/form-data")):
+		return judgeMultipart(class, c, cap, ct, uploads, feat)
 	case hasForm:
-		if mt, _, err := mime.ParseMediaType(ct); err != nil || mt != c.MediaType {
-			m.Violate("content-type-does-not-describe-body/"+feat, fmt.Sprintf("url-encoded form sent under Content-Type %q ; %s", ct, c.describe()), c)
-			return
+		if !offered || base != "application/x-www-form-urlencoded" {
+			return &verdict{"content-type-does-not-describe-body/" + feat, fmt.Sprintf("form fields sent under Content-Type %q (offered %q) ; %s", ct, consumes, c.describe())}
 		}
 		got, err := url.ParseQuery(string(cap.body))
 		if err != nil || !sameValues(got, c.Fields) {
-			m.Violate("form-encoding-differs/"+feat, fmt.Sprintf("sent %q, fields %v ; %s", cap.body, c.Fields, c.describe()), c)
-			return
+			return &verdict{"form-encoding-differs/" + feat, fmt.Sprintf("sent %q, fields %v ; %s", cap.body, c.Fields, c.describe())}
 		}
-		m.Class("urlencoded-ok")
+		noteFirst()
+		class("urlencoded-ok")
 	case c.Payload == "value":
+		if !offered {
+			if producers[c.MediaType] == nil {
+				class("no-producer")
+				return nil
+			}
+			return &verdict{"content-type-does-not-describe-body/" + feat, fmt.Sprintf("value sent under Content-Type %q, offered %q ; %s", ct, consumes, c.describe())}
+		}
 		var want bytes.Buffer
-		prod := r.Producers[c.MediaType]
+		prod := producers[base]
 		if prod == nil {
-			m.Class("no-producer")
-			return
+			class("no-producer")
+			return nil
 		}
 		if err := prod.Produce(&want, valueFor(c.ValueKind, c.BodyLen)); err != nil {
-			m.Class("producer-refuses-value")
-			return
+			class("producer-refuses-value")
+			return nil
 		}
 		if !bytes.Equal(want.Bytes(), cap.body) {
-			m.Violate("value-encoding-differs/"+feat, fmt.Sprintf("sent %d bytes %.80q, producer writes %d bytes %.80q ; %s", len(cap.body), cap.body, want.Len(), want.Bytes(), c.describe()), c)
-			return
+			return &verdict{"value-encoding-differs/" + feat, fmt.Sprintf("sent %d bytes %.80q under Content-Type %q, its producer writes %d bytes %.80q ; %s", len(cap.body), cap.body, ct, want.Len(), want.Bytes(), c.describe())}
 		}
-		if ct != c.MediaType {
-			m.Violate("content-type-does-not-describe-body/"+feat, fmt.Sprintf("value encoded as %s sent under Content-Type %q", c.MediaType, ct), c)
-			return
-		}
-		m.Class("value-ok")
+		noteFirst()
+		class("value-ok")
 	case c.Payload == "reader" || c.Payload == "readcloser" || c.Payload == "bytes.Buffer" || c.Payload == "bytes.Reader" || c.Payload == "strings.Reader":
 		if !bytes.Equal(stream, cap.body) {
-			m.Violate("stream-bytes-differ/"+feat, fmt.Sprintf("sent %d bytes, the reader held %d ; %s", len(cap.body), len(stream), c.describe()), c)
-			return
+			return &verdict{"stream-bytes-differ/" + feat, fmt.Sprintf("sent %d bytes, the reader held %d ; %s", len(cap.body), len(stream), c.describe())}
 		}
-		if ct != c.MediaType {
-			m.Violate("content-type-does-not-describe-body/"+feat, fmt.Sprintf("stream sent under Content-Type %q, media type %q", ct, c.MediaType), c)
-			return
+		if !offered {
+			return &verdict{"content-type-does-not-describe-body/" + feat, fmt.Sprintf("stream sent under Content-Type %q, offered %q ; %s", ct, consumes, c.describe())}
 		}
-		m.Class("stream-ok")
+		noteFirst()
+		class("stream-ok")
 	default:
 		if len(cap.body) != 0 {
-			m.Violate("body-without-payload/"+feat, fmt.Sprintf("%d body bytes sent without any payload", len(cap.body)), c)
-			return
+			return &verdict{"body-without-payload/" + feat, fmt.Sprintf("%d body bytes sent without any payload", len(cap.body))}
 		}
-		m.Class("no-payload-ok")
+		class("no-payload-ok")
 	}
-	if m.WantSample() {
-		m.Sample(c)
-	}
+	return nil
 }
 
-func judgeMultipart(m *mon.M, c *Case, cap *capture, ct string, uploads []*upload, feat string) {
+func judgeMultipart(class func(string), c *Case, cap *capture, ct string, uploads []*upload, feat string) *verdict {
 	mt, params, err := mime.ParseMediaType(ct)
 	if err != nil || params["boundary"] == "" {
-		m.Violate("multipart-content-type-unusable/"+feat, fmt.Sprintf("Content-Type %q ; %s", ct, c.describe()), c)
-		return
+		return &verdict{"multipart-content-type-unusable/" + feat, fmt.Sprintf("Content-Type %q ; %s", ct, c.describe())}
 	}
 	mr := multipart.NewReader(bytes.NewReader(cap.body), params["boundary"])
 	type part struct {
@@ -346,8 +632,7 @@ func judgeMultipart(m *mon.M, c *Case, cap *capture, ct string, uploads []*uploa
 			break
 		}
 		if err != nil {
-			m.Violate("multipart-unparsable/"+feat, fmt.Sprintf("%v ; body %.120q ; %s", err, cap.body, c.describe()), c)
-			return
+			return &verdict{"multipart-unparsable/" + feat, fmt.Sprintf("%v ; body %.120q ; %s", err, cap.body, c.describe())}
 		}
 		b, _ := io.ReadAll(p)
 		// FileName() applies filepath.Base itself; read the raw parameter instead
@@ -365,12 +650,10 @@ func judgeMultipart(m *mon.M, c *Case, cap *capture, ct string, uploads []*uploa
 		gotFields[p.field] = append(gotFields[p.field], string(p.data))
 	}
 	if !sameValues(gotFields, c.Fields) {
-		m.Violate("multipart-fields-differ/"+feat, fmt.Sprintf("sent fields %v, set %v ; %s", gotFields, c.Fields, c.describe()), c)
-		return
+		return &verdict{"multipart-fields-differ/" + feat, fmt.Sprintf("sent fields %v, set %v ; %s", gotFields, c.Fields, c.describe())}
 	}
 	if len(fileParts) != len(c.Files) {
-		m.Violate("multipart-file-count/"+feat, fmt.Sprintf("%d file parts sent, %d files set ; %s", len(fileParts), len(c.Files), c.describe()), c)
-		return
+		return &verdict{"multipart-file-count/" + feat, fmt.Sprintf("%d file parts sent, %d files set ; %s", len(fileParts), len(c.Files), c.describe())}
 	}
 	used := make([]bool, len(fileParts))
 	for i, fs := range c.Files {
@@ -387,8 +670,7 @@ func judgeMultipart(m *mon.M, c *Case, cap *capture, ct string, uploads []*uploa
 			for _, p := range fileParts {
 				seen = append(seen, fmt.Sprintf("{field=%q file=%q len=%d}", p.field, p.file, len(p.data)))
 			}
-			m.Violate("multipart-file-missing-or-altered/"+feat, fmt.Sprintf("file field=%q name=%q (base %q) len=%d not found among parts %v ; %s", fs.Field, fs.Name, filepath.Base(fs.Name), len(data), seen, c.describe()), c)
-			return
+			return &verdict{"multipart-file-missing-or-altered/" + feat, fmt.Sprintf("file field=%q name=%q (base %q) len=%d not found among parts %v ; %s", fs.Field, fs.Name, filepath.Base(fs.Name), len(data), seen, c.describe())}
 		}
 		used[idx] = true
 		want := fs.Declared
@@ -410,15 +692,14 @@ func judgeMultipart(m *mon.M, c *Case, cap *capture, ct string, uploads []*uploa
 			if fs.Declared != "" {
 				lc = "declared"
 			}
-			m.Violate("file-part-content-type/"+lc, fmt.Sprintf("part Content-Type %q, expected %q for %s content of %d bytes ; %s", fileParts[idx].ctype, want, fs.Kind, len(data), c.describe()), c)
-			return
+			return &verdict{"file-part-content-type/" + lc, fmt.Sprintf("part Content-Type %q, expected %q for %s content of %d bytes ; %s", fileParts[idx].ctype, want, fs.Kind, len(data), c.describe())}
 		}
 	}
 	if mt != "multipart/form-data" {
-		m.Violate("content-type-does-not-describe-body/multipart-labelled-"+mt, fmt.Sprintf("a multipart document was sent under Content-Type %q ; %s", ct, c.describe()), c)
-		return
+		return &verdict{"content-type-does-not-describe-body/multipart-labelled-" + mt, fmt.Sprintf("a multipart document was sent under Content-Type %q ; %s", ct, c.describe())}
 	}
-	m.Class("multipart-ok")
+	class("multipart-ok")
+	return nil
 }
 
 func hasFilename(field, file string, _ []byte) (string, bool) { return file, file != "" }
@@ -440,7 +721,7 @@ func sameValues(a, b map[string][]string) bool {
 	return norm(a) == norm(b)
 }
 
-func (c *Case) feature() string {
+func (c *Case) baseFeature() string {
 	f := c.Payload
 	if len(c.Files) > 0 {
 		f = "files"
@@ -455,6 +736,42 @@ func (c *Case) feature() string {
 		g = fmt.Sprintf("getbody-%d", c.GetBody)
 	}
 	return f + "/" + c.MediaType + "/" + g
+}
+
+// decorations names the further input features of a case, for the shapes that have them only.
+func (c *Case) decorations() string {
+	f := ""
+	switch c.Method {
+	case "POST", "PUT", "PATCH", "":
+	default:
+		f += "/method-" + c.Method
+	}
+	if c.PresetCT != "" {
+		f += "/content-type-preset-by-params"
+	}
+	if c.Variant != "" {
+		f += "/media-type-variant"
+	}
+	if c.Consumes != "" {
+		f += "/consumes-" + c.Consumes
+	}
+	if c.BodyChunk > 0 || c.BodyEOF {
+		f += "/short-reads"
+	}
+	if c.Debug {
+		f += "/debug"
+	}
+	for _, fs := range c.Files {
+		if fs.Seekable {
+			if fs.Offset > 0 {
+				f += "/seekable-source-at-offset"
+			} else {
+				f += "/seekable-source"
+			}
+			break
+		}
+	}
+	return f
 }
 
 func (c *Case) fingerprint() string {
@@ -495,6 +812,10 @@ func genFiles(r *rand.Rand, n int, lenPick func() int) []FileSpec {
 			fs.Declared = []string{"image/png", "text/x-custom; charset=utf-8", "application/pdf", "text/plain;charset=utf-8", "IMAGE/PNG", `text/x-q; b=2; a="1"`, "application/vnd.x+json;  v=1"}[r.Intn(7)]
 		case 2:
 			fs.Renamed = []string{"tmp-123.bin", "upload.tmp", "other/inner.txt"}[r.Intn(3)]
+		case 3, 4:
+			// a source that can seek, most of the time handed over somewhere past its start
+			fs.Seekable = true
+			fs.Offset = []int{0, 1, 16, 300, 512, 600}[r.Intn(6)]
 		}
 		out = append(out, fs)
 	}
@@ -504,7 +825,7 @@ func genFiles(r *rand.Rand, n int, lenPick func() int) []FileSpec {
 func genFields(r *rand.Rand) map[string][]string {
 	out := map[string][]string{}
 	n := 1 + r.Intn(3)
-	vals := []string{"v", "", "a b&c=d", "é", "line\nbreak", "x\"y", strings.Repeat("long", 300)}
+	vals := []string{"v", "", "a b&c=d", "é", "line\nbreak", "x\"y", strings.Repeat("long", 300), " pad ", "B", "b"}
 	for i := 0; i < n; i++ {
 		k := []string{"name", "tag", "a b", "k&=", "é"}[r.Intn(5)]
 		nv := 1 + r.Intn(3)
@@ -536,6 +857,9 @@ func run(m *mon.M) {
 				}
 				c := &Case{Method: "POST", MediaType: "multipart/form-data", Payload: "none", GetBody: getBodies[r.Intn(4)],
 					Files: []FileSpec{{Field: "file", Name: hostileNames[r.Intn(len(hostileNames))], Kind: kind, Len: l, Chunk: chunk}}}
+				if chunk == 0 && r.Intn(4) == 0 {
+					c.Files[0].Seekable, c.Files[0].Offset = true, []int{16, 512, 700}[r.Intn(3)]
+				}
 				m.Begin(c)
 				runCase(m, c)
 			}
@@ -593,8 +917,55 @@ func run(m *mon.M) {
 				c.Method = "GET"
 			}
 		}
+		decorate(r, c)
 		m.Begin(c)
 		runCase(m, c)
+	}
+}
+
+var (
+	otherMethods = []string{"GET", "DELETE", "OPTIONS", "HEAD", "QUERY", "GET"}
+	presetTypes  = []string{"text/plain", "application/json", "application/x-preset", "application/octet-stream; x=1"}
+	variantsOf   = map[string][]string{
+		"application/json":         {"application/json; charset=utf-8", "application/json;charset=UTF-8", "Application/JSON"},
+		"text/plain":               {"text/plain; charset=utf-8", "TEXT/plain"},
+		"application/xml":          {"application/xml; charset=utf-8"},
+		"application/octet-stream": {"application/octet-stream; type=x"},
+	}
+	shapes = []string{"empty-first", "none", "all-empty", "then-other", "empty-then-two"}
+)
+
+// decorate varies what surrounds the payload: the method, a Content-Type preset by the params writer, the
+// shape of the list of offered media types, a variant spelling, short reads of a reader payload, debug mode.
+func decorate(r *rand.Rand, c *Case) {
+	hasForm := len(c.Fields) > 0 || len(c.Files) > 0
+	streamy := c.Payload == "reader" || c.Payload == "readcloser"
+	if r.Intn(4) == 0 && (c.Payload != "none" || hasForm) {
+		c.Method = otherMethods[r.Intn(len(otherMethods))]
+	}
+	if r.Intn(5) == 0 && (c.Payload != "none" || hasForm) {
+		c.PresetCT = presetTypes[r.Intn(len(presetTypes))]
+	}
+	if !hasForm && c.Payload != "none" && r.Intn(8) == 0 {
+		if vs := variantsOf[c.MediaType]; len(vs) > 0 {
+			c.Variant = vs[r.Intn(len(vs))]
+		}
+	}
+	if r.Intn(4) == 0 {
+		c.Consumes = shapes[r.Intn(len(shapes))]
+		if c.Consumes == "then-other" || c.Consumes == "empty-then-two" {
+			c.Other = []string{"application/json", "text/plain", "application/xml", "application/octet-stream", "multipart/form-data", "application/x-www-form-urlencoded"}[r.Intn(6)]
+			if c.Other == c.MediaType {
+				c.Other = "text/html"
+			}
+		}
+	}
+	if streamy && r.Intn(3) == 0 {
+		c.BodyChunk = []int{0, 1, 7, 512, 4096}[r.Intn(5)]
+		c.BodyEOF = c.BodyChunk == 0 || r.Intn(2) == 0
+	}
+	if r.Intn(12) == 0 {
+		c.Debug = true
 	}
 }
 
